@@ -116,6 +116,7 @@ Inductive action :=
 | Write (c : ctl) (inject_failure : bool)
 | Abort (c : ctl)
 | JobDone (t : nat) (ok : bool)
+| JobGone (t : nat)                 (* the run object is removed by something other than katib (TTL, user) *)
 | Metrics (t : nat) (v : option Z)
 | EarlyStop (t : nat) (v : option Z)
 | DeployAvailable (b : bool)
@@ -740,6 +741,7 @@ Definition step (w : world) (a : action) : world :=
       set_jobs w (map (fun j => if Nat.eqb (j_name j) t then
                                    match j_phase j with JActive => {| j_name := j_name j; j_phase := if ok then JSucc else JFail |} | _ => j end
                                  else j) (w_jobs w))
+  | JobGone t => set_jobs w (filter (fun j => negb (Nat.eqb (j_name j) t)) (w_jobs w))
   | Metrics t v =>
       match find_trial t (w_trials w), db_get t (w_db w) with
       | Some _, None => set_db w (w_db w ++ [(t, v)])
